@@ -69,3 +69,9 @@ fi
 if [ -d "$MC/checks/c05/repeat" ] && [ "$PKG" = "./checks/c05" ]; then
   ( cd "$MC" && go build -modfile="$B/plain.mod" -tags verif -o "$OUT-repeat" ./checks/c05/repeat ) || fail "platform repeat-run part build failed"
 fi
+
+# 10. C05's parallel-engine pass (plain modfile, -race: free runs of the real timing platform on akita's
+#     ParallelEngine under the Go race detector; the workers re-exec the binary)
+if [ -d "$MC/checks/c05/prace" ] && [ "$PKG" = "./checks/c05" ]; then
+  ( cd "$MC" && go build -race -modfile="$B/plain.mod" -tags verif -o "$OUT-prace" ./checks/c05/prace ) || fail "parallel-engine pass build failed"
+fi
